@@ -12,6 +12,7 @@ independent of which runs a pool worker executed before (determinism) and makes 
 from __future__ import annotations
 
 import copy
+import functools
 import hashlib
 import importlib
 import inspect
@@ -129,9 +130,17 @@ def _put_back(live, saved):
             live[...] = saved
 
 
+_DETACHED = []
+
+
 def restore():
     """Fresh process: all volatile library state back to its import-time value."""
     snap = snapshot()
+    for _, _, fn in _memo_functions():
+        try:
+            fn.cache_clear()
+        except Exception:  # noqa: BLE001
+            pass
     for live, saved in snap["glob"]:
         _put_back(live, saved)
     for live, saved in snap["defaults"]:
@@ -193,10 +202,36 @@ def describe():
     return {"module_containers": len(snap["glob"]), "mutable_defaults": len(snap["defaults"]), "module_scalars": len(snap["scalars"])}
 
 
+def _memo_functions():
+    """functools.lru_cache / functools.cache wrappers defined in the library (module level or on classes): volatile state
+    like any other cache.  None on the pinned tree."""
+    out = []
+    for mod in _modules():
+        for name, val in list(vars(mod).items()):
+            if hasattr(val, "cache_clear") and hasattr(val, "__wrapped__") and getattr(val, "__module__", None) == mod.__name__:
+                out.append((mod, name, val))
+            elif inspect.isclass(val) and val.__module__ == mod.__name__:
+                for an, av in list(vars(val).items()):
+                    f = av.__func__ if isinstance(av, (staticmethod, classmethod)) else av
+                    if hasattr(f, "cache_clear") and hasattr(f, "__wrapped__") and not isinstance(av, (staticmethod, classmethod)):
+                        out.append((val, an, av))
+    return out
+
+
 def save_current():
-    """Shallow copy of the current volatile state (to be put back with `load`)."""
+    """Shallow copy of the current volatile state (to be put back with `load`).  Memoising wrappers are detached (a
+    cold twin with an empty memo is installed in their place until `load`), so the warm memo survives untouched."""
     snap = snapshot()
     cur = []
+    memo = []
+    for owner, name, fn in _memo_functions():
+        try:
+            params = fn.cache_parameters() if hasattr(fn, "cache_parameters") else {"maxsize": 128, "typed": False}
+            setattr(owner, name, functools.lru_cache(maxsize=params.get("maxsize"), typed=params.get("typed", False))(fn.__wrapped__))
+            memo.append((owner, name, fn))
+        except Exception:  # noqa: BLE001
+            pass
+    _DETACHED.append(memo)
     for live, _ in snap["glob"] + snap["defaults"]:
         if isinstance(live, dict):
             cur.append((live, dict(live)))
@@ -212,6 +247,12 @@ def save_current():
 
 def load(saved):
     cur, sc = saved
+    if _DETACHED:
+        for owner, name, fn in _DETACHED.pop():
+            try:
+                setattr(owner, name, fn)
+            except Exception:  # noqa: BLE001
+                pass
     for live, val in cur:
         if isinstance(live, dict):
             live.clear()
